@@ -12,7 +12,8 @@ import (
 // CV is a cEMI message in the vocabulary of spec/Knxnet.tla: an L_Data frame or a raw message.
 type CV struct {
 	LF
-	Raw []int `json:"raw"`
+	CK  string `json:"ck"` // ldata | raw | none
+	Raw []int  `json:"raw"`
 }
 
 type DV struct {
@@ -48,7 +49,7 @@ type SV struct {
 
 func zeroSV(svc int) SV {
 	return SV{Svc: svc, H1: []int{0, 0, 0, 0, 0, 0}, H2: []int{0, 0, 0, 0, 0, 0},
-		Cemi: CV{LF: LF{Kind: "none", Info: []int{}, Data: []int{}}, Raw: []int{}},
+		Cemi: CV{LF: LF{Kind: "none", Info: []int{}, Data: []int{}}, CK: "none", Raw: []int{}},
 		Dev:  DV{Serial: []int{0, 0, 0, 0, 0, 0}, Mcast: []int{0, 0, 0, 0}, Mac: []int{0, 0, 0, 0, 0, 0}, Name: []int{}},
 		Fams: FV{List: []int{}}}
 }
@@ -62,7 +63,7 @@ func hostTo(h knxnet.HostInfo) []int {
 }
 
 func (c CV) message() cemi.Message {
-	if c.Kind == "raw" {
+	if c.CK == "raw" {
 		raw := bytesOf(c.Raw)
 		switch c.Code {
 		case 0x10:
@@ -82,17 +83,17 @@ func (c CV) message() cemi.Message {
 }
 
 func cemiTo(m cemi.Message) CV {
-	c := CV{LF: LF{Kind: "none", Info: []int{}, Data: []int{}}, Raw: []int{}}
+	c := CV{LF: LF{Kind: "none", Info: []int{}, Data: []int{}}, CK: "none", Raw: []int{}}
 	if m == nil {
 		return c
 	}
 	if f, ok := fieldsOf(m); ok {
 		c.LF = f
-		c.Kind = "ldata:" + f.Kind
+		c.CK = "ldata"
 		return c
 	}
 	c.Code = int(m.MessageCode())
-	c.Kind = "raw"
+	c.CK = "raw"
 	switch m := m.(type) {
 	case *cemi.LRawReq:
 		c.Raw = Ints(m.LRaw)
@@ -311,7 +312,7 @@ func pick(rng *rand.Rand, xs ...int) int { return xs[rng.Intn(len(xs))] }
 
 // genCemi produces one of the nine payload kinds; oversize = also values beyond the field limits.
 func genCemi(rng *rand.Rand, kind int, oversize bool) CV {
-	c := CV{LF: LF{Kind: "none", Info: []int{}, Data: []int{}}, Raw: []int{}}
+	c := CV{LF: LF{Kind: "none", Info: []int{}, Data: []int{}}, CK: "none", Raw: []int{}}
 	b8 := func() int { return pick(rng, 0, 1, 127, 128, 255, rng.Intn(256)) }
 	b16 := func() int { return pick(rng, 0, 1, 0x1234, 0xffff, rng.Intn(65536)) }
 	switch {
@@ -323,27 +324,25 @@ func genCemi(rng *rand.Rand, kind int, oversize bool) CV {
 		if c.Numbered == 0 {
 			c.Seqn = 0
 		}
+		c.CK = "ldata"
 		if kind < 3 {
-			c.Kind = "ldata:app"
-			c.LF.Kind = "app"
+			c.Kind = "app"
 			c.Cmd = rng.Intn(16)
 			c.Data = rbytes(rng, pick(rng, 1, 2, 15, 16, 254, 1+rng.Intn(254)))
 			c.Data[0] = pick(rng, 0, 63, rng.Intn(64))
 		} else {
-			c.LF.Kind = "ctl"
+			c.Kind = "ctl"
 			c.Cmd = rng.Intn(4)
 		}
 		if oversize {
 			if rng.Intn(2) == 0 {
 				c.Info = rbytes(rng, pick(rng, 256, 257, 600))
-			} else if c.LF.Kind == "app" {
+			} else if c.Kind == "app" {
 				c.Data = rbytes(rng, pick(rng, 0, 256, 257, 600))
 			}
 		}
-		c.Kind = c.LF.Kind
-		c.Kind = "ldata"
 	default:
-		c.Kind = "raw"
+		c.CK = "raw"
 		c.Code = []int{0x10, 0x2f, 0x2d, 0x2b, pick(rng, 0x13, 0x25, 0x00, 0xff, 0x12)}[kind-6]
 		c.Raw = rbytes(rng, pick(rng, 0, 1, 2, 30, rng.Intn(300)))
 	}
